@@ -169,21 +169,67 @@ fn supervise(property: &str, tier: Tier, pc: &PropertyCheck, cfg: &CheckCfg) -> 
             return 2;
         }
         let skip_arg = skip.iter().map(|(p, i)| format!("{}:{}", p, i)).collect::<Vec<_>>().join(",");
-        let status = std::process::Command::new(&exe).args(["check", property, tier.name()]).env("VERIF_WORKER_CHILD", "1").env("VERIF_CRASHLOG", &log_path).env("VERIF_SKIP_RUNS", &skip_arg).status();
-        let status = match status {
-            Ok(s) => s,
+        let child = std::process::Command::new(&exe).args(["check", property, tier.name()]).env("VERIF_WORKER_CHILD", "1").env("VERIF_CRASHLOG", &log_path).env("VERIF_SKIP_RUNS", &skip_arg).spawn();
+        let mut child = match child {
+            Ok(c) => c,
             Err(e) => {
                 eprintln!("HARNESS-ERROR: cannot start the worker process: {}", e);
                 return 2;
             }
         };
-        if let Some(code) = status.code() {
-            child_code = code;
-            break;
+        // ---- watch it: a run that blocks the process for good (a wait outside every instrumented seam -- e.g. a blocking
+        // call into a dependency) shows as a worker that stays on the same run for far longer than any run can take
+        let hang_after = std::time::Duration::from_secs(std::env::var("VERIF_HANG_S").ok().and_then(|s| s.parse().ok()).unwrap_or(25));
+        let overall_deadline = std::time::Instant::now() + cfg.budget * 4 + std::time::Duration::from_secs(600);
+        let mut seen: std::collections::BTreeMap<usize, ((usize, u64), std::time::Instant)> = Default::default();
+        let mut hung: Vec<(usize, u64)> = vec![];
+        let status = loop {
+            match child.try_wait() {
+                Ok(Some(st)) => break Some(st),
+                Ok(None) => {}
+                Err(e) => {
+                    eprintln!("HARNESS-ERROR: cannot wait for the worker process: {}", e);
+                    return 2;
+                }
+            }
+            std::thread::sleep(std::time::Duration::from_millis(500));
+            let now = std::time::Instant::now();
+            let busy = crashlog::read_busy_slots(&log_path);
+            seen.retain(|slot, (run, _)| busy.iter().any(|(s, p, i)| s == slot && (*p, *i) == *run));
+            for (slot, p, i) in busy {
+                seen.entry(slot).or_insert(((p, i), now));
+            }
+            hung = seen.values().filter(|(_, since)| now.duration_since(*since) > hang_after).map(|(run, _)| *run).filter(|c| !skip.contains(c)).collect();
+            hung.sort_unstable();
+            hung.dedup();
+            if !hung.is_empty() || now > overall_deadline {
+                let _ = child.kill();
+                let _ = child.wait();
+                break None;
+            }
+        };
+        let (sig, candidates): (i32, Vec<(usize, u64)>) = match status {
+            Some(status) => {
+                if let Some(code) = status.code() {
+                    child_code = code;
+                    break;
+                }
+                (status.signal().unwrap_or(0), crashlog::read_busy(&log_path).into_iter().filter(|c| !skip.contains(c)).collect())
+            }
+            None => {
+                if hung.is_empty() {
+                    eprintln!("HARNESS-ERROR: the worker process did not finish within its deadline and no run in progress explains it");
+                    let _ = std::fs::remove_file(&log_path);
+                    return 2;
+                }
+                (-1, hung.clone())
+            }
+        };
+        if sig == -1 {
+            eprintln!("the worker process stopped making progress: run(s) {:?} (part, index) have been executing for more than {} s: re-running each alone", candidates, hang_after.as_secs());
+        } else {
+            eprintln!("the worker process died with {} while executing run(s) {:?} (part, index): re-running each alone", signal_name(sig), candidates);
         }
-        let sig = status.signal().unwrap_or(0);
-        let candidates: Vec<(usize, u64)> = crashlog::read_busy(&log_path).into_iter().filter(|c| !skip.contains(c)).collect();
-        eprintln!("the worker process died with {} while executing run(s) {:?} (part, index): re-running each alone", signal_name(sig), candidates);
         let mut culprits = vec![];
         for (part, idx) in candidates {
             let st = std::process::Command::new(&exe)
@@ -196,15 +242,33 @@ fn supervise(property: &str, tier: Tier, pc: &PropertyCheck, cfg: &CheckCfg) -> 
                 .env("VERIF_WORKERS", "1")
                 .stdout(std::process::Stdio::null())
                 .stderr(std::process::Stdio::null())
-                .status();
-            if let Ok(st) = st {
-                if st.code().is_none() {
-                    culprits.push((part, idx, st.signal().unwrap_or(0)));
+                .spawn();
+            if let Ok(mut c) = st {
+                let deadline = std::time::Instant::now() + hang_after;
+                loop {
+                    match c.try_wait() {
+                        Ok(Some(st)) => {
+                            if st.code().is_none() {
+                                culprits.push((part, idx, st.signal().unwrap_or(0)));
+                            }
+                            break;
+                        }
+                        Ok(None) => {
+                            if std::time::Instant::now() > deadline {
+                                let _ = c.kill();
+                                let _ = c.wait();
+                                culprits.push((part, idx, -1));
+                                break;
+                            }
+                            std::thread::sleep(std::time::Duration::from_millis(200));
+                        }
+                        Err(_) => break,
+                    }
                 }
             }
         }
         if culprits.is_empty() {
-            eprintln!("HARNESS-ERROR: the worker process died with {} and none of the runs in progress dies when run alone (not attributable; nothing is reported as a violation)", signal_name(sig));
+            eprintln!("HARNESS-ERROR: the worker process {} and none of the runs in progress does so when run alone (not attributable; nothing is reported as a violation)", if sig == -1 { "hung".to_string() } else { format!("died with {}", signal_name(sig)) });
             let _ = std::fs::remove_file(&log_path);
             return 2;
         }
@@ -218,13 +282,17 @@ fn supervise(property: &str, tier: Tier, pc: &PropertyCheck, cfg: &CheckCfg) -> 
     for (part, idx, sig) in crashes.iter() {
         let Some(runner) = pc.parts.get(*part) else { continue };
         let (params, context) = runner.params_of(cfg, *idx);
-        let key = format!("{}/process_crash/{}{}", runner.name(), context, signal_name(*sig));
-        let v = ctx::Violation { property: property.to_string(), oracle: "process_crashed".into(), key: key.clone(), detail: format!("executing this run kills the process with {} (memory corrupted or freed memory used by the code under test); confirmed by re-running it alone in a fresh process", signal_name(*sig)) };
+        let v = if *sig == -1 {
+            ctx::Violation { property: property.to_string(), oracle: "process_hung".into(), key: format!("{}/process_hang/{}blocked_forever", runner.name(), context), detail: "executing this run blocks the process for good: an operation of the code under test waits outside every instrumented seam (e.g. a blocking call into a dependency) for something that can never happen in this run; confirmed by re-running it alone in a fresh process".into() }
+        } else {
+            ctx::Violation { property: property.to_string(), oracle: "process_crashed".into(), key: format!("{}/process_crash/{}{}", runner.name(), context, signal_name(*sig)), detail: format!("executing this run kills the process with {} (memory corrupted or freed memory used by the code under test); confirmed by re-running it alone in a fresh process", signal_name(*sig)) }
+        };
+        let key = v.key.clone();
         if let Some(kf) = framework::match_known(&known, &v) {
             println!("KNOWN-FINDING: property={} {} -- {}", kf.property, kf.key, kf.what);
             continue;
         }
-        let file = ReplayFile { property: property.to_string(), scenario: runner.name().into(), engine: runner.engine().into(), params, decisions: vec![], violation: v.clone(), verif_seed: cfg.verif_seed, run_index: *idx, repo_commit: framework::repo_commit(), minimised_from: serde_json::json!({"note": "a run that kills the process is reported as generated (no minimisation)"}), trace: vec![] };
+        let file = ReplayFile { property: property.to_string(), scenario: runner.name().into(), engine: runner.engine().into(), params, decisions: vec![], violation: v.clone(), verif_seed: cfg.verif_seed, run_index: *idx, repo_commit: framework::repo_commit(), minimised_from: serde_json::json!({"note": "a run that kills or blocks the process is reported as generated (no minimisation)"}), trace: vec![] };
         let path = replay_dir.join(format!("{}-{}-{}.json", property, framework::sanitize(&key), idx));
         if std::fs::write(&path, serde_json::to_string_pretty(&file).unwrap()).is_err() {
             eprintln!("HARNESS-ERROR: cannot write {}", path.display());
@@ -239,7 +307,7 @@ fn supervise(property: &str, tier: Tier, pc: &PropertyCheck, cfg: &CheckCfg) -> 
         let ev_path = root.join("evidence").join(format!("{}.json", property));
         if let Ok(text) = std::fs::read_to_string(&ev_path) {
             if let Ok(mut ev) = serde_json::from_str::<serde_json::Value>(&text) {
-                ev["coverage"]["runs_that_killed_the_worker_process"] = serde_json::json!(crashes.iter().map(|(p, i, s)| serde_json::json!({"part": p, "run_index": i, "signal": signal_name(*s)})).collect::<Vec<_>>());
+                ev["coverage"]["runs_that_killed_or_blocked_the_worker_process"] = serde_json::json!(crashes.iter().map(|(p, i, s)| serde_json::json!({"part": p, "run_index": i, "how": if *s == -1 { "blocked forever" } else { signal_name(*s) }})).collect::<Vec<_>>());
                 if let Some(n) = ev["violations"].as_u64() {
                     ev["violations"] = serde_json::json!(n + new_crash_violations);
                 }
@@ -304,6 +372,44 @@ fn main() {
                 eprintln!("harness error: unknown scenario {}", file.scenario);
                 std::process::exit(2);
             };
+            if file.violation.oracle == "process_hung" {
+                if std::env::var_os("VERIF_WORKER_CHILD").is_some() {
+                    let _ = part.execute_params(&file.params);
+                    exit(0);
+                }
+                let c = std::process::Command::new(std::env::current_exe().unwrap()).args(["replay", &path, "--quiet"]).env("VERIF_WORKER_CHILD", "1").stdout(std::process::Stdio::null()).stderr(std::process::Stdio::null()).spawn();
+                let Ok(mut c) = c else {
+                    eprintln!("harness error: cannot start the replay process");
+                    exit(2);
+                };
+                let deadline = std::time::Instant::now() + std::time::Duration::from_secs(std::env::var("VERIF_HANG_S").ok().and_then(|s| s.parse().ok()).unwrap_or(25));
+                loop {
+                    match c.try_wait() {
+                        Ok(Some(_)) => {
+                            if !quiet {
+                                println!("not reproduced: the run completes");
+                            }
+                            exit(0);
+                        }
+                        Ok(None) => {
+                            if std::time::Instant::now() > deadline {
+                                let _ = c.kill();
+                                let _ = c.wait();
+                                if !quiet {
+                                    println!("VIOLATION property={} replay={}", file.property, path);
+                                    println!("  reproduced: the run blocks the process for good [{}]", file.violation.key);
+                                }
+                                exit(1);
+                            }
+                            std::thread::sleep(std::time::Duration::from_millis(200));
+                        }
+                        Err(e) => {
+                            eprintln!("harness error: {}", e);
+                            exit(2);
+                        }
+                    }
+                }
+            }
             if file.violation.oracle == "process_crashed" {
                 if std::env::var_os("VERIF_WORKER_CHILD").is_some() {
                     // the child: just execute the run (and die, if the crash reproduces)
